@@ -408,6 +408,13 @@ def World.summary (w : World) : Summary :=
   { auids := w.pop.auids, p1 := w.net.table.p1, p2 := w.net.table.p2, beta := w.net.table.beta,
     dur := w.net.table.dur, stop := w.net.table.stop, wf := w.net.table.wfB }
 
+instance : DecidableEq (Except Err Summary) := fun a b =>
+  match a, b with
+  | .ok x, .ok y => if h : x = y then isTrue (by rw [h]) else isFalse (by intro e; cases e; exact h rfl)
+  | .error x, .error y => if h : x = y then isTrue (by rw [h]) else isFalse (by intro e; cases e; exact h rfl)
+  | .ok _, .error _ => isFalse (by intro e; cases e)
+  | .error _, .ok _ => isFalse (by intro e; cases e)
+
 /-- initialise, run a history, summarise -/
 def simulate (n : Nat) (female : Nat → Bool) (age : Nat → Rat) (k : Kind) (v : Variant) (c : Choice) (ops : List Op) :
     Except Err Summary :=
